@@ -70,6 +70,37 @@ def run_nat(a, idx, tier):
     return runs
 
 
+def run_loggrad(a, idx):
+    """Log-semiring gradients (one-hot cotangent) in this interpreter, judged by Trace_Grad"""
+    runs = []
+    n = AG.numel(AG.shape_of(a, a['start']))
+    cotlog = [0] * n
+    cotlog[idx % max(1, n)] = 1
+    enc = lambda v: NAN if math.isnan(v) else (INF if v == math.inf else (NINF if v == -math.inf else (int(round(v * 10000)) if abs(v) < 90 else NONINT)))
+    for method in METHODS[:2]:
+        r = {'kind': 'log', 'out': 'ok', 'grads': {}, 'tag': ['log', method, 'float64', LEVEL, 'grad']}
+        try:
+            g, _ = AG.build_fgg(a, 'log', torch.float64)
+            for f in g.factors.values():
+                f.weights.requires_grad_()
+            with warnings.catch_warnings():
+                warnings.simplefilter('ignore')
+                z = fggs.sum_product(g, method=method, semiring=AG.semiring_for('log', torch.float64)).to_dense()
+                c = torch.tensor(cotlog, dtype=torch.float64).reshape(z.shape)
+                loss = (z[c != 0] * c[c != 0]).sum()
+                if loss.requires_grad:
+                    loss.backward()
+            for t in AG.terms_of(a):
+                gr = g.factors[t].weights.grad
+                k = len(a['w'][t])
+                r['grads'][t] = [[ABSENT, ABSENT]] * k if gr is None else [[enc(float(x))] * 2 for x in gr.to_dense().reshape(-1).tolist()]
+        except Exception as e:  # noqa
+            r['out'] = 'raise:' + type(e).__name__
+            r['err'] = str(e)[:160]
+        runs.append(r)
+    return cotlog, runs
+
+
 def interval_fx(v):
     if math.isnan(v):
         return [NAN, NAN]
@@ -112,5 +143,10 @@ if __name__ == '__main__':
     jobs = json.load(open(sys.argv[1]))
     out = []
     for j in jobs:
-        out.append(run_nat(j['ag'], j['idx'], j['tier']) if j['mode'] == 'nat' else run_fx(j['ag'], j['idx'], j['tier']))
+        if j['mode'] == 'nat':
+            runs = run_nat(j['ag'], j['idx'], j['tier'])
+            cotlog, lg = run_loggrad(j['ag'], j['idx'])
+            out.append({'runs': runs, 'cotlog': cotlog, 'loggrad': lg})
+        else:
+            out.append({'runs': run_fx(j['ag'], j['idx'], j['tier'])})
     json.dump(out, open(sys.argv[2], 'w'))
